@@ -985,6 +985,29 @@ def _r4(ctx, acquire, release):
                 ok = isinstance(e.body, ast.Constant) and e.body.value is None and isinstance(e.orelse, ast.Name) and e.orelse.id == v
             elif isinstance(t.ops[0], ast.NotIn):
                 ok = isinstance(e.orelse, ast.Constant) and e.orelse.value is None and isinstance(e.body, ast.Name) and e.body.id == v
+    if not ok and not comp:
+        # the same selection written as a loop:  for n in x.index.names: (names.append(None) if n in tokens else names.append(n))
+        tokens = [p_ for p_ in release.params][-1]
+        for lp in [n for n in ast.walk(release.node) if isinstance(n, ast.For) and isinstance(n.target, ast.Name)]:
+            v = lp.target.id
+            if len(lp.body) == 1 and isinstance(lp.body[0], ast.If) and len(lp.body[0].body) == 1 and len(lp.body[0].orelse) == 1:
+                iff = lp.body[0]
+                t = iff.test
+
+                def appended(st_):
+                    if isinstance(st_, ast.Expr) and isinstance(st_.value, ast.Call) and isinstance(st_.value.func, ast.Attribute) and \
+                            st_.value.func.attr == "append" and len(st_.value.args) == 1:
+                        return st_.value.args[0]
+                    return None
+                a_, b_ = appended(iff.body[0]), appended(iff.orelse[0])
+                if isinstance(t, ast.Compare) and len(t.ops) == 1 and isinstance(t.left, ast.Name) and t.left.id == v and \
+                        isinstance(t.comparators[0], ast.Name) and t.comparators[0].id == tokens and a_ is not None and b_ is not None:
+                    if isinstance(t.ops[0], ast.NotIn):
+                        a_, b_ = b_, a_
+                    if isinstance(t.ops[0], (ast.In, ast.NotIn)) and isinstance(a_, ast.Constant) and a_.value is None and \
+                            isinstance(b_, ast.Name) and b_.id == v:
+                        ok = True
+                        comp = [lp]
     if ok:
         ctx.holds(release, comp[0], "exactly the placeholders are reset to None, every other name is kept")
     else:
